@@ -327,6 +327,17 @@ def reuse_phase(chk, scenarios, world):
         d, ap, reg, pck = world.get(seq[0], ndims, cfgseed, payload)
         fsel = py_fsel(seq[0]["fsel"])
         v = None
+        # first a selection the reader cannot honour: a field name of the header in ANOTHER CASE (unless the header holds that
+        # spelling too).  It must raise -- and must leave nothing behind on the reader that a later selection could see
+        names_ = list(ap["fields"])
+        odd = [nm.swapcase() for nm in names_ if nm.swapcase() != nm and nm.swapcase() not in names_]
+        if odd:
+            try:
+                with core.quiet():
+                    pck[odd[n % len(odd)]]
+                v = "pck[%r] was answered although the header holds no field of that name (fields %r)" % (odd[n % len(odd)], names_)
+            except Exception:
+                pass
         try:
             with core.quiet():
                 selector = pck[fsel]
